@@ -233,14 +233,16 @@ impl Settings {
             // the equity export writes this name as a posting account:
             // it must be an account name the journal parser accepts
             let eqa = cfg.export.equity.equity_account.as_str();
-            let valid = AccountTreeNode::from(eqa).is_ok()
-                && eqa.split(':').enumerate().all(|(i, part)| {
-                    if i == 0 {
-                        parser::is_valid_id(part)
-                    } else {
-                        parser::is_valid_sub_id(part)
-                    }
-                });
+            // exactly the test the journal parser applies to a posting account
+            let valid = AccountTreeNode::from(eqa).is_ok() && {
+                let mut tmp_settings = Settings::default();
+                let mut is = parser::Stream {
+                    input: eqa,
+                    state: &mut tmp_settings,
+                };
+                parser::parts::identifier::p_multi_part_id(&mut is).is_ok_and(|id| id == eqa)
+                    && is.input.is_empty()
+            };
             if !valid {
                 let msg = format!("Invalid `equity.equity-account`: '{eqa}'");
                 return Err(msg.into());
